@@ -388,6 +388,17 @@ pub fn gen_scenario(rng: &mut Rng, opts: &GenOpts) -> Scenario {
             c.last_ack_or_rtt_sample_ms = pr;
         }
     }
+    // A late REG_ERR (added after seeded defect C12e): the receiver rejects a link AFTER its latch / pull history
+    // was made - the shell then clears `connected` and the receive stamp without any core reset, so whatever the
+    // guard holds on that link (a silence pull, a latch) is still in place at the next decision.
+    if steps > 0 && rng.chance(1, 5) {
+        let li = rng.usize_below(n);
+        let c = &mut conns[li];
+        if c.connected {
+            c.connected = false;
+            c.last_received = None;
+        }
+    }
     let last_idx = match rng.below(6) {
         0 => None,
         1 => Some(n + rng.usize_below(3)),
